@@ -96,8 +96,8 @@ example : ∃ s, run (init 2) [.queueDirect 1, .write (.direct 1) true .ok, .que
   refine ⟨_, rfl, ?_⟩
   decide
 
-/-- only unsendable requests so far: the deadline was never set -/
-example : ∃ s, run (init 2) [.queueUnsendable 3, .queueUnsendable 4] = some s ∧
+/-- only unsendable requests so far (one direct, one batched): the deadline was never set -/
+example : ∃ s, run (init 2) [.queueUnsendable 3, .queueBatchedUnsendable 4] = some s ∧
     s.done = false ∧ quiescent s = true ∧ s.nextId = 2 ∧ s.sent = [] ∧ s.inFlight = 0 ∧
     step s .timeout = none := by
   refine ⟨_, rfl, ?_⟩
